@@ -34,7 +34,8 @@ func genCase(t *rapid.T) Case {
 	})
 	cols := ref.Columns(&c.Schema)
 	st := []gen.Style{gen.Mixed, gen.SmallDom, gen.Wide}[rapid.IntRange(0, 2).Draw(t, "style")]
-	c.Plan = gen.Rows(t, &c.Schema, 8, kit.Pick(300, 3000), gen.ValueOpts{Style: st, Leaf: gen.Opts{MaxBytes: kit.Pick(40, 300)}})
+	c.Plan = gen.Rows(t, &c.Schema, 8, kit.Pick(300, 3000), gen.ValueOpts{Style: st, Leaf: gen.Opts{MaxBytes: kit.Pick(40, 300)}, LongLists: 10})
+	c.Plan.Uniq = rapid.IntRange(0, 2).Draw(t, "uniq") == 0
 	c.Opts = gen.WriterOptions(t, cols, gen.OptsBias{SmallPages: rapid.Bool().Draw(t, "small"), EncFor: pq.ValidEncodings})
 	c.Ops = gen.WriteOps(t, c.Plan.NumRows())
 	c.ReadBatch = []int{1, 2, 7, 17, 64, 100, 1000}[rapid.IntRange(0, 6).Draw(t, "rb")]
@@ -43,7 +44,7 @@ func genCase(t *rapid.T) Case {
 
 func runCase(c Case, o *kit.Obs) *kit.Failure {
 	cols := ref.Columns(&c.Schema)
-	rows := c.Plan.Expand()
+	rows := c.Plan.ExpandWith(&c.Schema)
 	data, err := pq.WriteFile(&c.Schema, cols, rows, c.Opts, c.Ops)
 	if err != nil {
 		if _, ok := err.(*pq.ConfigError); ok {
